@@ -95,6 +95,16 @@ def _run(r):
     V = len(vocab)
     if cfg.get("mask") is not None and (cfg["mask"] not in vocab or vocab[cfg["mask"]] != V - 1):
         bad.append("mask entry")
+    # declared block order and column naming: pre_/post_<window>_<token> -> token index + block * n_vocab
+    col = est.column_label_dictionary_
+    blk = 0
+    for i, o in enumerate(cfg["orientations"]):
+        for pre in (["pre_", "post_"] if o == "directional" else (["pre_"] if o == "before" else ["post_"])):
+            for t, idx in vocab.items():
+                lab = pre + str(i) + "_" + str(t)
+                if lab not in col or col[lab] != idx + blk * V:
+                    bad.append("column label %s -> %s, expected block %d column %d" % (lab, col.get(lab), blk, idx + blk * V))
+            blk += 1
     est2 = _mk(cfg, inp)
     if est2.fit(X) is not est2:
         bad.append("fit return")
